@@ -88,6 +88,8 @@ type dsListener struct {
 }
 
 type dsWorld struct {
+	closeInHooks    bool
+	cancelStep      int64
 	closeCancelled  bool           // Close has cancelled the announce-triggered syncs
 	lockAfterCancel map[int64]bool // async goroutines that got the publisher's lock after that
 	deadLast        bool
@@ -264,6 +266,11 @@ func runDsync(r *simkit.Run, c Cfg, mode dsMode) {
 
 	d.lockAfterCancel = map[int64]bool{}
 	d.deadLast = mode.closing && tp.Chance(1, 2, "deadLast")
+	d.closeInHooks = mode.closing && tp.Chance(1, 3, "closeInHooks")
+	if d.closeInHooks {
+		sites["hook.call"] = true
+		r.EnableSites(sites)
+	}
 	npub := tp.Range(1, 3, "npub")
 	for i := 0; i < npub; i++ {
 		name := fmt.Sprintf("P%d", i+1)
@@ -564,6 +571,8 @@ func runDsync(r *simkit.Run, c Cfg, mode dsMode) {
 		return
 	}
 	lksHeld := 0
+	closeHeld := 0
+	seenHook := map[*simkit.Parked]bool{}
 	custom := func(p *simkit.Parked) *simkit.Action {
 		if p.Site == "lks.call" && d.lksLate && r.TaskOf(p.GID) == "peeker" && lksHeld < 300 {
 			// the application's answer is slow: it comes after a sync of
@@ -633,6 +642,15 @@ func runDsync(r *simkit.Run, c Cfg, mode dsMode) {
 		}
 		switch p.Site {
 		case "hook.call":
+			if !seenHook[p] {
+				seenHook[p] = true
+				if _, async := d.asyncFor[p.GID]; async && d.closeCancelled && r.Step() > d.cancelStep && r.TaskOf(p.GID) == "" {
+					// Close has cancelled the announce-triggered syncs; this
+					// one goes on handing blocks to the hook (blocks it finds
+					// in the local store need no request that would notice)
+					r.Violate(d.mode.name+".cancelled", "an announce-triggered sync of %s called the block hook (%s) after Close had cancelled the announce-triggered syncs", d.asyncFor[p.GID], p.Who)
+				}
+			}
 			if d.slowHook && r.TaskOf(p.GID) != "" {
 				// slow user code in the block hook of an explicit sync:
 				// everything else is four times as likely to go first
@@ -666,10 +684,11 @@ func runDsync(r *simkit.Run, c Cfg, mode dsMode) {
 				r.Release(p, nil)
 			}}
 		case "close.step":
-			if p.Who == "1" {
+			if p.Who == "1" && !d.closeCancelled {
 				// (reached once Close has cancelled the announce-triggered
 				// syncs)
 				d.closeCancelled = true
+				d.cancelStep = r.Step()
 			}
 			if p.Who == "3" {
 				// Next step: the receiver is closed. A message still buffered
@@ -696,6 +715,26 @@ func runDsync(r *simkit.Run, c Cfg, mode dsMode) {
 			}
 			return nil
 		case "close":
+			if d.closeInHooks && !d.closeCalled && closeHeld < 400 {
+				// in these runs the first Close comes while an
+				// announce-triggered sync is handing blocks to the hook
+				inHook, others := false, false
+				for _, q := range r.Enabled() {
+					if q.Site == "hook.call" && d.asyncFor[q.GID] != "" {
+						inHook = true
+					}
+					if q.Site != "close" && q.Site != "op.cancel" {
+						others = true
+					}
+				}
+				if !inHook && others {
+					closeHeld++
+					return &simkit.Action{Name: "hold close|" + p.Who, Do: nil}
+				}
+				if inHook {
+					r.Probe("close-while-an-announce-triggered-sync-is-in-its-hook-calls")
+				}
+			}
 			// bias: Close is released at an arbitrary point, not first
 			return &simkit.Action{Name: "release close|" + p.Who, Weight: 1, Do: func() {
 				d.closeCalled = true
